@@ -430,8 +430,11 @@ def _tree_walk_recursion(f, node) -> bool:
     if len(node.body) != 1 or not isinstance(node.body[0], ast.Expr) or not isinstance(node.body[0].value, ast.YieldFrom):
         return False
     c = node.body[0].value.value
-    return isinstance(c, ast.Call) and isinstance(c.func, ast.Attribute) and isinstance(c.func.value, ast.Name) and c.func.value.id in ("self", "cls") \
-        and c.func.attr == f.name and bool(c.args) and isinstance(node.target, ast.Name) and ast.unparse(c.args[0]) == node.target.id
+    if not (isinstance(c, ast.Call) and isinstance(c.func, ast.Attribute) and isinstance(c.func.value, ast.Name) and c.func.attr == f.name
+            and isinstance(node.target, ast.Name)):
+        return False
+    # the child is the first argument of the recursive call (class / static walker) or its receiver (instance walker)
+    return (c.func.value.id in ("self", "cls") and bool(c.args) and ast.unparse(c.args[0]) == node.target.id) or c.func.value.id == node.target.id
 
 
 def _unique_language_match(px, reason):
